@@ -268,6 +268,32 @@ theorem C16_every_v1_symbol_has_home :
     convertible convertImportv2 "RFC-1212" "OBJECT-TYPE" = true ∧ convertible convertImportv2 "RFC-1215" "TRAP-TYPE" = true := by
   decide +kernel
 
+/-- where the table sends symbol `s` of module `m` -/
+def homeOf (m s : String) : Option (List (String × String)) := (convertImportv2.lookup m).bind (·.lookup s)
+
+/-- ground truth from RFC 1158 / RFC 1213, not from the table: the address translation group and the egp group, which RFC 1213
+defines under the same names and OIDs and which no SMIv2 module took over -/
+def rfc1158AtEgp : List String := ["at", "atTable", "atEntry", "atIfIndex", "atPhysAddress", "atNetAddress",
+  "egp", "egpInMsgs", "egpInErrors", "egpOutMsgs", "egpOutErrors", "egpNeighTable", "egpNeighEntry", "egpNeighState",
+  "egpNeighAddr", "egpNeighAs", "egpNeighInMsgs", "egpNeighInErrs", "egpNeighOutMsgs", "egpNeighOutErrs",
+  "egpNeighInErrMsgs", "egpNeighOutErrMsgs", "egpNeighStateUps", "egpNeighStateDowns", "egpNeighIntervalHello",
+  "egpNeighIntervalPoll", "egpNeighMode", "egpNeighEventTrigger", "egpAs"]
+
+/-- ... and the scalars of the ip group, all of which IP-MIB (RFC 2011 / 4293) carries on -/
+def rfc1213IpScalars : List String := ["ipForwarding", "ipDefaultTTL", "ipInReceives", "ipInHdrErrors", "ipInAddrErrors",
+  "ipForwDatagrams", "ipInUnknownProtos", "ipInDiscards", "ipInDelivers", "ipOutRequests", "ipOutDiscards", "ipOutNoRoutes",
+  "ipReasmTimeout", "ipReasmReqds", "ipReasmOKs", "ipReasmFails", "ipFragOKs", "ipFragFails", "ipFragCreates",
+  "ipRoutingDiscards"]
+
+/-- **C16_rfc1158_groups_home**: every object of the at and egp groups imported from RFC1158-MIB is imported from RFC1213-MIB
+under its own name, and every scalar of the ip group - from RFC1158-MIB or RFC1213-MIB - from IP-MIB (checked against the table
+regenerated from the source on every run; `at`, `atTable`, ... `egp` were missing before repair 185daa8, `ipRoutingDiscards`
+before 1a030a1). -/
+theorem C16_rfc1158_groups_home :
+    (∀ s ∈ rfc1158AtEgp, homeOf "RFC1158-MIB" s = some [("RFC1213-MIB", s)]) ∧
+    (∀ s ∈ rfc1213IpScalars, s ≠ "ipRoutingDiscards" → homeOf "RFC1158-MIB" s = some [("IP-MIB", s)]) ∧
+    (∀ s ∈ rfc1213IpScalars, homeOf "RFC1213-MIB" s = some [("IP-MIB", s)]) := by decide +kernel
+
 /-- **C16_type_map** -/
 theorem C16_type_map :
     (∀ tbl ∈ [symtableTypeClasses, intermediateSmiTypes, pysnmpSmiTypes],
